@@ -655,6 +655,20 @@ var c20ToK = regexp.MustCompile(`-to-[0-9]+\+`)
 // c20OpFamily drops the split position from a path name ("…-to-9999+ReadValue" → "…-to-k+ReadValue").
 func c20OpFamily(name string) string { return c20ToK.ReplaceAllString(name, "-to-k+") }
 
+// c20GuardStack is guard() that also returns the stack of the panic.
+func c20GuardStack(f func()) (p any, stack string) {
+	defer func() {
+		if r := recover(); r != nil {
+			if mf, ok := r.(machineryFailure); ok {
+				panic(mf)
+			}
+			p, stack = r, string(debug.Stack())
+		}
+	}()
+	f()
+	return nil, ""
+}
+
 // c20SameJSON compares two texts after compaction (map member order is made deterministic by the caller).
 func c20SameJSON(a, b []byte) bool {
 	va, vb := jsontext.Value(bytes.Clone(a)), jsontext.Value(bytes.Clone(b))
@@ -2267,6 +2281,15 @@ var c20Positions = []c20Pos{
 		return nil
 	}, `{"k0":1,"k":"v"}`, 3},
 	{"array", false, func(e *jsontext.Encoder) error { return e.WriteToken(jsontext.BeginArray) }, `["v",1]`, 1},
+	// the same three value positions with an OBJECT as the next input value (a decoder can fail half-way through it)
+	{"top/object-input", false, func(*jsontext.Encoder) error { return nil }, `{"a":"x","b":{"c":1},"a":2} 1`, 0},
+	{"array/object-input", false, func(e *jsontext.Encoder) error { return e.WriteToken(jsontext.BeginArray) }, `[{"a":"x","b":{"c":1},"a":2},1]`, 1},
+	{"object-value/object-input", false, func(e *jsontext.Encoder) error {
+		if err := e.WriteToken(jsontext.BeginObject); err != nil {
+			return err
+		}
+		return e.WriteToken(jsontext.String("k0"))
+	}, `{"k0":{"a":"x","b":{"c":1},"a":2},"k":2}`, 2},
 	{"nested-object-name", true, func(e *jsontext.Encoder) error {
 		for _, t := range []jsontext.Token{jsontext.BeginObject, jsontext.String("a"), jsontext.BeginArray, jsontext.BeginObject} {
 			if err := e.WriteToken(t); err != nil {
@@ -2289,7 +2312,7 @@ func c20OptionPositionSweep(c *Ctx) {
 	}{
 		{"string", "k"}, {"string-invalid-utf8", "k\xff"}, {"int", 7}, {"struct", c20PlainStruct{A: 1}},
 		{"map", map[string]int{"a": 1, "b": 2}}, {"map-invalid-utf8-keys", map[string]int{"a\xff": 1, "a\xfe": 2}},
-		{"slice", []int{1}}, {"nil", nil}, {"*string", new(string)}, {"map[string]any", map[string]any{"x": map[string]any{"y": 1.0}}},
+		{"slice", []int{1}}, {"nil", nil}, {"map-with-unsupported-value", map[string]any{"a": make(chan int)}}, {"*string", new(string)}, {"map[string]any", map[string]any{"x": map[string]any{"y": 1.0}}},
 	}
 	targets := []struct {
 		name string
@@ -2299,6 +2322,7 @@ func c20OptionPositionSweep(c *Ctx) {
 		{"*struct", func() any { return new(c20PlainStruct) }}, {"*map", func() any { return new(map[string]int) }},
 		{"*any", func() any { return new(any) }}, {"*[]any", func() any { return new([]any) }},
 		{"*jsontext.Value", func() any { return new(jsontext.Value) }},
+		{"*map[string]map[string]int", func() any { return new(map[string]map[string]int) }},
 	}
 	var creations []c20CoderOpts
 	for _, d := range []bool{false, true} {
@@ -2348,7 +2372,36 @@ func c20OptionPositionSweep(c *Ctx) {
 			c.Hit("optpos/expected=none")
 		}
 	}
-	afterError := os.Getenv("C20_AFTER_ERROR") == "1"
+	// A panic in the calls that FOLLOW a MarshalEncode/UnmarshalDecode is classified as the known root cause D9 (the
+	// namespace/name stacks get out of step when AllowDuplicateNames differs between a `{` and its `}`) only if
+	// (a) the preceding call returned an error, (b) its effective AllowDuplicateNames differed from the coder's own, and
+	// (c) the panic comes out of objectNamespaceStack (Last/pop) or out of objectNameStack.copyQuotedBuffer reached
+	// through AppendStackPointer while an error is being wrapped.  Every other panic is a plain `panic`.
+	followUpPanic := func(op, id string, cr c20CoderOpts, set []c20CallOpt, callErr error, p any, stack string) {
+		eff := cr
+		var ws [3]bool
+		for _, o := range set {
+			o.apply(&eff, &ws)
+		}
+		frame := "other"
+		switch {
+		case strings.Contains(stack, "objectNamespaceStack"):
+			frame = "objectNamespaceStack"
+		case strings.Contains(stack, "objectNameStack).copyQuotedBuffer") && strings.Contains(stack, "AppendStackPointer"):
+			frame = "objectNameStack.copyQuotedBuffer<-AppendStackPointer"
+		}
+		kind := "panic"
+		if callErr != nil && eff.dup != cr.dup && frame != "other" {
+			kind = "panic-namespace-after-failed-option-call"
+		}
+		c.Hit("optpos/follow-up-" + kind + "/" + frame)
+		c.Hit("optpos/pair/" + kind + "|" + op) // every (vkind, op) pair that occurs, beyond the cap on written violations
+		detail := map[string]any{"panic": fmt.Sprint(p), "frame": frame, "call_failed": callErr != nil, "coder_dup": cr.dup, "call_dup": eff.dup}
+		if callErr != nil {
+			detail["call_error"] = trunc(callErr.Error(), 120)
+		}
+		c.Violate(kind, op, []byte(id), detail)
+	}
 	n := 0
 	for _, pos := range c20Positions {
 		for _, cr := range creations {
@@ -2364,31 +2417,33 @@ func c20OptionPositionSweep(c *Ctx) {
 					id := idBase + " value=" + val.name
 					op := "optpos/MarshalEncode/" + pos.name
 					var err error
+					var e *jsontext.Encoder
 					pv := guard(func() {
 						var bb bytes.Buffer
-						e := jsontext.NewEncoder(&bb, cr.opts()...)
+						e = jsontext.NewEncoder(&bb, cr.opts()...)
 						if perr := pos.enc(e); perr != nil {
 							fail("optpos: cannot reach %s: %v", pos.name, perr)
 						}
 						err = json.MarshalEncode(e, val.v, callOpts...)
-						// the coder must remain usable: the options are restored, further calls do not panic.
-						// After a FAILED call the coder is left inside the half-written value; going on from there is
-						// swept only with C20_AFTER_ERROR=1 (open finding D12: a `}` after a failed call that had switched
-						// AllowDuplicateNames on panics in objectNamespaceStack.pop — see the report).
-						if err == nil || afterError {
-							_ = json.MarshalEncode(e, "next")
-							_ = e.WriteToken(jsontext.Int(2))
-							_ = e.WriteToken(jsontext.EndObject)
-							_ = e.WriteToken(jsontext.EndArray)
-							_ = e.StackPointer()
-						}
 					})
 					n++
 					c.Case("optpos|"+op+"|"+id, len(set) > 0)
 					if pv != nil {
-						c.Hit("optpos/panic")
+						c.Hit("optpos/panic-in-call")
 						c.Panic(op, []byte(id), pv, nil)
 						continue
+					}
+					// the coder must remain usable — after a successful call and after a failed one (the documentation of
+					// jsontext promises errors, not panics): next value, closers, StackPointer
+					fp, stack := c20GuardStack(func() {
+						_ = json.MarshalEncode(e, "next")
+						_ = e.WriteToken(jsontext.Int(2))
+						_ = e.WriteToken(jsontext.EndObject)
+						_ = e.WriteToken(jsontext.EndArray)
+						_ = e.StackPointer()
+					})
+					if fp != nil {
+						followUpPanic(op, id, cr, set, err, fp, stack)
 					}
 					check(op, id, pos, cr, set, true, err)
 				}
@@ -2396,31 +2451,35 @@ func c20OptionPositionSweep(c *Ctx) {
 					id := idBase + " target=" + tg.name
 					op := "optpos/UnmarshalDecode/" + pos.name
 					var err error
+					var d *jsontext.Decoder
 					pv := guard(func() {
-						d := jsontext.NewDecoder(strings.NewReader(pos.text), cr.opts()...)
+						d = jsontext.NewDecoder(strings.NewReader(pos.text), cr.opts()...)
 						for i := 0; i < pos.reads; i++ {
 							if _, rerr := d.ReadToken(); rerr != nil {
 								fail("optpos: cannot reach %s: %v", pos.name, rerr)
 							}
 						}
 						err = json.UnmarshalDecode(d, tg.mk(), callOpts...)
-						if err == nil || afterError {
-							var x any
-							_ = json.UnmarshalDecode(d, &x)
-							for i := 0; i < 8; i++ {
-								if _, rerr := d.ReadToken(); rerr != nil {
-									break
-								}
-							}
-							_ = d.StackPointer()
-						}
 					})
 					n++
 					c.Case("optpos|"+op+"|"+id, len(set) > 0)
 					if pv != nil {
-						c.Hit("optpos/panic")
+						c.Hit("optpos/panic-in-call")
 						c.Panic(op, []byte(id), pv, nil)
 						continue
+					}
+					fp, stack := c20GuardStack(func() {
+						var x any
+						_ = json.UnmarshalDecode(d, &x)
+						for i := 0; i < 8; i++ {
+							if _, rerr := d.ReadToken(); rerr != nil {
+								break
+							}
+						}
+						_ = d.StackPointer()
+					})
+					if fp != nil {
+						followUpPanic(op, id, cr, set, err, fp, stack)
 					}
 					check(op, id, pos, cr, set, false, err)
 				}
